@@ -372,6 +372,9 @@ def run(repo, res, tier):
     ff_inp_from_input(repo, res)
     fallback_index(repo, res)
     res.floor("FF", res.count("FF"), 17)
+    # the labels of the automaton for a shell come from the definition chosen for that shell (shared with C11)
+    from . import c11
+    c11.lookup_rule(repo, res)
     RPL.from_grammar_order(repo, res)
     # Regex::from_valid_grammar compiles the validated expression in the validated arena
     fq = "regex::Regex::from_valid_grammar"
